@@ -31,7 +31,41 @@ pub mod mutex {
             }
         }
 
+        impl<T> SpinMutex<T> {
+            pub fn into_inner(self) -> T {
+                self.data.into_inner()
+            }
+        }
+
         impl<T: ?Sized> SpinMutex<T> {
+            /// Exclusive access without locking (the real crate offers it too).
+            pub fn get_mut(&mut self) -> &mut T {
+                // a scheduling point: whoever uses this believes nobody else is around
+                shuttle::thread::sleep(std::time::Duration::ZERO);
+                self.data.get_mut()
+            }
+            pub fn is_locked(&self) -> bool {
+                self.lock.load(Ordering::Relaxed)
+            }
+            pub fn try_lock(&self) -> Option<SpinMutexGuard<'_, T>> {
+                if self
+                    .lock
+                    .compare_exchange(false, true, Ordering::Acquire, Ordering::Relaxed)
+                    .is_ok()
+                {
+                    Some(SpinMutexGuard {
+                        lock: &self.lock,
+                        data: self.data.get(),
+                    })
+                } else {
+                    None
+                }
+            }
+            /// # Safety
+            /// Same contract as the real crate's `force_unlock`.
+            pub unsafe fn force_unlock(&self) {
+                self.lock.store(false, Ordering::Release);
+            }
             pub fn lock(&self) -> SpinMutexGuard<'_, T> {
                 while self
                     .lock
